@@ -197,7 +197,7 @@ func (r *c17Run) inSelect(name string) bool {
 // waitWriter waits until the replenisher and the closer finished and the writer finished or is
 // blocked in its select.  The bound only matters on failing paths.
 func (r *c17Run) waitWriter() (stuck bool, ok bool) {
-	deadline := time.Now().Add(10 * time.Second)
+	deadline := time.Now().Add(60 * time.Second)
 	for spin := 0; ; spin++ {
 		if r.isFinished("r") && r.isFinished("d") {
 			sel := r.inSelect("w") // snapshot taken after the others finished
@@ -227,7 +227,7 @@ func (r *c17Run) quiet(phase int, stuck, ok bool) {
 // settle: phase 1 = free run in which the driver plays loopy (whenever the writer parks, everything
 // outstanding is written out) until the writer finished or parked with nothing outstanding;
 // phase 2 = done closed.
-func (r *c17Run) settle() bool {
+func (r *c17Run) settle() (clean, settled bool) {
 	r.freed.Store(true)
 	if r.s != nil {
 		r.s.Free()
@@ -251,7 +251,7 @@ func (r *c17Run) settle() bool {
 	r.closeDone()
 	stuck2, ok2 := r.waitWriter()
 	r.quiet(2, stuck2, ok2)
-	return ok && ok2 && !stuck && !stuck2
+	return ok && ok2 && !stuck && !stuck2, ok && ok2
 }
 
 func (r *c17Run) state() map[string]any {
@@ -271,7 +271,7 @@ func (r *c17Run) step(t, p string) (arr string, blocked bool, err error) {
 		if r.inSelect(t) {
 			return "", true, nil
 		}
-		if time.Since(start) > 10*time.Second {
+		if time.Since(start) > 60*time.Second {
 			return "", false, err
 		}
 		arr, err = r.s.Await(t)
@@ -354,9 +354,11 @@ func c17RunBehaviour(b *c17Scope) (events []map[string]any, outcome string) {
 			}
 		}
 	}
-	clean := r.settle()
-	if !s.Join(5*time.Second) && clean {
-		outcome += "+join-timeout"
+	clean, settled := r.settle()
+	if !settled {
+		outcome = "unsettled: " + outcome
+	} else if !s.Join(5*time.Second) && clean {
+		outcome = "unsettled: join timeout, " + outcome
 	}
 	r.logmu.Lock()
 	defer r.logmu.Unlock()
@@ -382,7 +384,7 @@ func TestVerifC17Replay(t *testing.T) {
 		if err := json.Unmarshal(ln, &b); err != nil {
 			t.Fatal(err)
 		}
-		if counts["blocked"]+counts["infeasible"] >= 5 {
+		if counts["blocked"]+counts["infeasible"]+counts["unsettled"] >= 5 {
 			skipped++
 			continue
 		}
@@ -472,7 +474,7 @@ func TestVerifC17Stress(t *testing.T) {
 			time.Sleep(20 * time.Microsecond)
 		}
 		stop.Store(true)
-		if !r.settle() {
+		if _, settled := r.settle(); !settled {
 			unclean++
 		}
 		verifhook.Set(nil)
